@@ -453,4 +453,4 @@ def main(chk: Check) -> None:
     chk.extra["scripts_grid_complete"] = bool(complete)
     complete = chk.enumerate("view_sequences", _view_grid(), run_history)
     chk.extra["view_sequences_grid_complete"] = bool(complete)
-    chk.explore("history", histories, run_history, quick=500, thorough=20000)
+    chk.explore("history", histories, run_history, quick=400, thorough=40000)
